@@ -9,6 +9,7 @@ and each rule passes the right condition to the right sub-command."""
 import ast
 
 from ..core import RuleResult, need
+from ..cfg import cfg_of
 from ..astutil import src, call_attr, call_name, is_name, path_of, walk_no_nested, compare_parts
 from ..grammar import Ladder, grammar_text
 from ..tables import fold
@@ -418,9 +419,83 @@ def rule_p5(repo):
     return res
 
 
+def rule_p6(repo):
+    """The assignment rule substitutes the assigned expression into the postcondition.  Under a binder the
+    substitution must not capture: on every path of the binder's subst to the rebuilt binder, (a) the bound name was
+    tested against the domain of the substitution and (b) the substituted values were tested for the bound name -
+    otherwise `x := k` turns the postcondition `forall k. x <= k` into the valid `forall k. k <= k`."""
+    res = RuleResult('C20.P6', 'substitution under a binder refuses (or avoids) capture of the bound variable', floor=1)
+    base = repo.cls(EXPR, 'Expr')
+    n = 0
+    for c in repo.subclasses_of(base):
+        if c.module.rel != EXPR:
+            continue
+        sub, init = c.methods.get('subst'), c.methods.get('__init__')
+        if sub is None or init is None:
+            continue
+        # a binder: a field that is checked to be a Var next to a field that is an Expr
+        binder = None
+        for call in ast.walk(init.node):
+            if isinstance(call, ast.Call) and call_name(call) == 'typecheck.checkinstance':
+                a = call.args[1:]
+                kinds = {v.id: t for v, t in zip(a[0::2], a[1::2]) if isinstance(v, ast.Name)}
+                vs = [k for k, t in kinds.items() if is_name(t, 'Var')]
+                es = [k for k, t in kinds.items() if is_name(t, 'Expr')]
+                if vs and es:
+                    binder = vs[0]
+        if binder is None:
+            continue
+        n += 1
+        inst_p = sub.params()[1]
+        cfg = cfg_of(sub.node)
+        builds = [r for r in cfg.return_nodes() if r.ast.value is not None and isinstance(r.ast.value, ast.Call) and call_name(r.ast.value) == c.name]
+        need(builds, '%s.subst: the rebuilt binder was not found' % c.name)
+
+        def mentions(e, *names):
+            txt = src(e, 400)
+            return all(nm in txt for nm in names)
+        dom = [t for t in cfg.test_nodes() if compare_parts(t.ast) and compare_parts(t.ast)[0] in (ast.In, ast.NotIn) and
+               mentions(t.ast, 'self.' + binder) and is_name(compare_parts(t.ast)[2], inst_p)]
+        over_values = set()
+        for l in ast.walk(sub.node):
+            if isinstance(l, ast.For) and ('%s.values()' % inst_p in src(l.iter, 200) or '%s.items()' % inst_p in src(l.iter, 200)):
+                over_values |= {x.id for x in ast.walk(l.target) if isinstance(x, ast.Name)}
+        cap = [t for t in cfg.test_nodes() if mentions(t.ast, 'self.' + binder) and
+               ('%s.values()' % inst_p in src(t.ast, 400) or '%s.items()' % inst_p in src(t.ast, 400) or
+                any(isinstance(x, ast.Name) and x.id in over_values for x in ast.walk(t.ast)))]
+        problems = []
+        for b in builds:
+            for what, tests, pol in (('the domain of the substitution is not tested for the bound name', dom, None),
+                                     ('the substituted expressions are not tested for the bound name', cap, None)):
+                if not tests:
+                    problems.append(what)
+                    continue
+                # every path to the construction passes such a test on the side that does not raise
+                edges = []
+                for t in tests:
+                    for (bnode, label) in t.succ:
+                        reach = cfg.reach_from([bnode])
+                        if b.id in reach:
+                            edges.append((t.id, label))
+                # a test inside a loop over the substituted values: leaving the loop means every value passed it
+                for it in [n for n in cfg.nodes if n.kind == 'iter' and ('%s.values()' % inst_p in src(n.ast.iter, 200) or '%s.items()' % inst_p in src(n.ast.iter, 200))]:
+                    entry = [bn for bn, l in it.succ if l == 'loop']
+                    if entry and cfg.path_avoiding(it, skip_edges=edges, start=entry[0]) is None:
+                        edges.append((it.id, 'done'))
+                if cfg.path_avoiding(b, skip_edges=edges) is not None:
+                    problems.append(what + ' on every path')
+        problems = sorted(set(problems))
+        res.add('%s :: %s.subst :: capture-avoiding' % (EXPR, c.name), not problems,
+                'the bound name is tested against the domain and against the substituted expressions before the binder is rebuilt' if not problems else
+                '; '.join(problems) + ' -- `x := k` turns the postcondition `forall k. x <= k` into `forall k. k <= k`: the triple is accepted although it is false',
+                sub.loc)
+    need(n >= 1, 'imperative/expr.py: no binder class found')
+    return res
+
+
 def rules(repo):
     p1 = rule_p1(repo)
     if any(not i.ok for i in p1.instances):
         # with an ambiguous grammar there is no nesting for the printer's brackets to agree with
-        return [p1, rule_p3(repo), rule_p4(repo), rule_p5(repo)]
-    return [p1, rule_p2(repo), rule_p3(repo), rule_p4(repo), rule_p5(repo)]
+        return [p1, rule_p3(repo), rule_p4(repo), rule_p5(repo), rule_p6(repo)]
+    return [p1, rule_p2(repo), rule_p3(repo), rule_p4(repo), rule_p5(repo), rule_p6(repo)]
